@@ -3614,6 +3614,10 @@ class BaseInstance(BaseClass):
         clone_of_self = super().clone(default_value=default_value, **metadata)
         if allow_none is not None:
             clone_of_self._allow_none = allow_none
+            # As in the initializer, the C-level fast validator depends on
+            # "allow_none" (and can only be set up for a resolved class).
+            if not isinstance(clone_of_self.klass, str):
+                clone_of_self.init_fast_validate()
         return clone_of_self
 
     def create_editor(self):
